@@ -664,6 +664,9 @@ func unnamed(ts []int) []Param {
 
 // payload draws an argument payload for type t (0 = the zero value; bool has only 0 and 1).
 func payload(rng *rand.Rand, t int) int {
+	if t == 22 {
+		return 7 // the decoy Step
+	}
 	if Types[t].IsBool {
 		return rng.Intn(2)
 	}
